@@ -502,6 +502,62 @@ fn catch_all_cases() -> Vec<Case> {
     cases
 }
 
+/// Nested ellipses with groups of different sizes: the generic uses give every ellipsis the same number of items, so
+/// the bindings of a repeated sub-pattern recur with a fixed period there. Four patterns x four templates x every
+/// sequence of <= 5 group sizes in 0..3.
+fn irregular_group_cases() -> Vec<Case> {
+    let parse = |t: &str| marwood::parse::parse_text(t).unwrap().0;
+    let patterns: [(&str, fn(i64, &[i64]) -> String); 4] = [
+        ("(_ (k v ...) ...)", |k, vs| format!("({}{})", k, vs.iter().map(|v| format!(" {}", v)).collect::<String>())),
+        ("(_ (v ... k) ...)", |k, vs| format!("({}{})", vs.iter().map(|v| format!("{} ", v)).collect::<String>(), k)),
+        ("(_ (k (v ...)) ...)", |k, vs| format!("({} ({}))", k, vs.iter().map(|v| v.to_string()).collect::<Vec<_>>().join(" "))),
+        ("(_ #(k v ...) ...)", |k, vs| format!("#({}{})", k, vs.iter().map(|v| format!(" {}", v)).collect::<String>())),
+    ];
+    let templates = ["(k ...)", "((k v ...) ...)", "((v ... k) ...)", "((k ...) (v ... ...) (k ...))"];
+    let mut seqs: Vec<Vec<usize>> = vec![vec![]];
+    let mut frontier: Vec<Vec<usize>> = vec![vec![]];
+    for _ in 0..5 {
+        let mut next = vec![];
+        for s in &frontier {
+            for n in 0..4usize {
+                let mut t = s.clone();
+                t.push(n);
+                next.push(t);
+            }
+        }
+        seqs.extend(next.iter().cloned());
+        frontier = next;
+    }
+    let mut cases = vec![];
+    for (pat, group) in patterns {
+        for tmpl in templates {
+            let rules = Rules { ellipsis: "...".into(), literals: vec![], rules: vec![(parse(pat), parse(tmpl))] };
+            let def = format!("(define-syntax m (syntax-rules () ({} '{})))", pat, tmpl);
+            for sizes in &seqs {
+                let mut ctr = 0i64;
+                let mut text = String::from("(m");
+                for (g, n) in sizes.iter().enumerate() {
+                    let vs: Vec<i64> = (0..*n).map(|_| { ctr += 1; ctr }).collect();
+                    text.push(' ');
+                    text.push_str(&group(100 * (g as i64 + 1), &vs));
+                }
+                text.push(')');
+                let form = parse(&text);
+                let expected = match rules.definition_valid() {
+                    Err(e) => Exp::Invalid(e),
+                    Ok(()) => match rules.expand(&form) {
+                        Expansion::Ok(c) => Exp::Value(c),
+                        Expansion::NoMatch => Exp::NoMatch,
+                        Expansion::Invalid(e) => Exp::Invalid(e),
+                    },
+                };
+                cases.push(Case { def: def.clone(), usetext: text.clone(), expected, class: "irregular-groups".into(), key: format!("{} | {}", def, text) });
+            }
+        }
+    }
+    cases
+}
+
 fn make_cases(tier: Tier) -> Vec<Case> {
     let (budget, nest, reps) = match tier {
         Tier::Quick => (3u32, 1u32, 2usize),
@@ -588,6 +644,7 @@ fn make_cases(tier: Tier) -> Vec<Case> {
         }
     }
     cases.extend(catch_all_cases());
+    cases.extend(irregular_group_cases());
     cases
 }
 
@@ -862,7 +919,7 @@ pub fn run(ctx: &Ctx) -> i32 {
     rep.extra("valid_r7rs_pairs", json!(valid_n));
     rep.extra("single_reruns_after_worker_death", json!(retry.len()));
     rep.rule = format!(
-        "Every pattern shape with at most {} atoms (variable, literal, _, datum), <= 3 elements per list, sub-patterns nested <= {} (quick tier: plus all two-atom shapes nested two deep), an ellipsis on at most one element per list (after a variable or a sub-pattern), an optional dotted tail variable, default and custom ellipsis; for each, every template of: the product of per-variable usages (dropped, v, (v), (v K), (v v), inner-first for depth 2, each with as many ellipses as the variable's depth), reversed order, shared ellipsis, a depth-0 variable inside another variable's ellipsis, dotted tails, vector, nested quote, a variable used in two places, and the R7RS-invalid shapes (too few / too many ellipses, ellipsis after a depth-0 variable); for each, uses with every ellipsis matching 0..{} items and near misses (too short, too long, wrong literal, wrong datum, atom for list, improper); every 7th shape also as the second rule behind a more specific first rule = {} (transformer, use) pairs, run in isolated workers (address-space cap, per-batch watchdog); the catch-all family (the pattern followed by four catch-all rules, small shapes, both ellipsis spellings); every session of <= 5 (thorough 6) forms over two definitions of one keyword, two procedures that redefine it when they run, their calls, and uses of the macro directly and through eval. Oracle: valid R7RS => a reported error or exactly the reference instantiation; no rule matches => an error; invalid R7RS => any outcome; always: no panic, abort or hang. Non-trivial = a valid pair whose outcome was the reference expansion or the required rejection.",
+        "Every pattern shape with at most {} atoms (variable, literal, _, datum), <= 3 elements per list, sub-patterns nested <= {} (quick tier: plus all two-atom shapes nested two deep), an ellipsis on at most one element per list (after a variable or a sub-pattern), an optional dotted tail variable, default and custom ellipsis; for each, every template of: the product of per-variable usages (dropped, v, (v), (v K), (v v), inner-first for depth 2, each with as many ellipses as the variable's depth), reversed order, shared ellipsis, a depth-0 variable inside another variable's ellipsis, dotted tails, vector, nested quote, a variable used in two places, and the R7RS-invalid shapes (too few / too many ellipses, ellipsis after a depth-0 variable); for each, uses with every ellipsis matching 0..{} items and near misses (too short, too long, wrong literal, wrong datum, atom for list, improper); every 7th shape also as the second rule behind a more specific first rule = {} (transformer, use) pairs, run in isolated workers (address-space cap, per-batch watchdog); the catch-all family (the pattern followed by four catch-all rules, small shapes, both ellipsis spellings); irregular groups (four nested-ellipsis patterns (_ (k v ...) ...) and variants x four templates x every sequence of <= 5 group sizes in 0..3); every session of <= 5 (thorough 6) forms over two definitions of one keyword, two procedures that redefine it when they run, their calls, and uses of the macro directly and through eval. Oracle: valid R7RS => a reported error or exactly the reference instantiation; no rule matches => an error; invalid R7RS => any outcome; always: no panic, abort or hang. Non-trivial = a valid pair whose outcome was the reference expansion or the required rejection.",
         match ctx.tier { Tier::Quick => 3, Tier::Thorough => 4 },
         match ctx.tier { Tier::Quick => 2, Tier::Thorough => 3 },
         match ctx.tier { Tier::Quick => 2, Tier::Thorough => 3 },
